@@ -9,6 +9,39 @@ open Gen
 theorem bv_add_sub_assoc {n : Nat} (a b c : BitVec n) : a + b - c = a + (b - c) := by
   rw [BitVec.sub_eq_add_neg, BitVec.sub_eq_add_neg, BitVec.add_assoc]
 
+/-! ### bridging: the segment check in the form the lemmas were written against -/
+
+/-- `seg->get_type() == PT_LOAD && seg->get_file_size() > 0 && sec != nullptr` -/
+theorem validate_seg_gate_eq (t : BitVec 32) (fs : BitVec 64) (nn : Bool) :
+    validate_seg_gate t fs nn = (t == BitVec.ofNat 32 PT_LOAD && decide (0 < fs.toNat) && nn) := by
+  have : BitVec.ult (BitVec.signExtend 64 0#32) fs = decide (0 < fs.toNat) := by
+    have h0 : (BitVec.signExtend 64 0#32 : BitVec 64) = 0#64 := by decide
+    rw [h0]; simp only [BitVec.ult, BitVec.toNat_ofNat, Nat.zero_mod]
+  unfold validate_seg_gate; rw [this]
+
+/-- `Elf64_Addr sec_addr = get_virtual_addr( seg->get_offset(), sec )` -/
+@[simp] theorem validate_sec_addr_eq (o a so : BitVec 64) : validate_sec_addr o a so = get_virtual_addr o a so := rfl
+
+/-- one iteration of `validate`'s segment loop, by cases on the section found -/
+theorem segConflict_eq (secs : List SecBuf) (g : Seg) :
+    segConflict secs g =
+      match findProgSection secs g.offset with
+      | none => false
+      | some s =>
+        g.stype == BitVec.ofNat 32 PT_LOAD && decide (0 < g.filesz.toNat) &&
+          validate_addr_ne (get_virtual_addr g.offset s.addr s.offset) g.vaddr := by
+  unfold segConflict
+  simp only [validate_seg_gate_eq, validate_sec_addr_eq]
+  cases findProgSection secs g.offset with
+  | none => simp
+  | some s =>
+    simp only [Option.isSome_some, Bool.and_true]
+    split
+    · rename_i h; rw [h, Bool.true_and]
+    · rename_i h
+      have : (g.stype == BitVec.ofNat 32 PT_LOAD && decide (0 < g.filesz.toNat)) = false := by simpa using h
+      rw [this, Bool.false_and]
+
 /-! ### intervals -/
 
 /-- the file range `[offset, offset+size)` of two sections intersect (as naturals) -/
@@ -228,7 +261,8 @@ theorem find?_vkey (p : SecBuf → Bool) (hp : ∀ a b, vkey a = vkey b → p a 
 theorem segConflict_vkey (l l' : List SecBuf) (h : l'.map vkey = l.map vkey) (g g' : Seg) (hg : vgkey g' = vgkey g) :
     segConflict l' g' = segConflict l g := by
   simp only [vgkey, Prod.mk.injEq] at hg
-  unfold segConflict findProgSection
+  rw [segConflict_eq, segConflict_eq]
+  unfold findProgSection
   rw [hg.1, hg.2.1, hg.2.2.1, hg.2.2.2]
   have hf := find?_vkey (fun s => find_prog_section_match s.stype g.offset s.offset s.size)
     (by intro a b hab; simp only [vkey, Prod.mk.injEq] at hab; simp only [hab.1, hab.2.1, hab.2.2.1]) l l' h
